@@ -256,6 +256,24 @@ fn is_permutation(slice: &[u32]) -> bool {
     true
 }
 
+/// Verification hook (`--cfg oxidd_verif` only): direct access to the two swap
+/// schedulers of `set_var_order`, so that a harness can drive them with its own
+/// `swap` callback (`concurrent = false`: [`bubble_sort`], `true`:
+/// [`concurrent_bubble_sort`]).
+#[cfg(oxidd_verif)]
+pub fn verif_bubble_sort<M: HasWorkers>(
+    manager: &M,
+    seq: &mut [u32],
+    swap: &(dyn for<'b> Fn(&'b M, u32) + Sync),
+    concurrent: bool,
+) {
+    if concurrent {
+        concurrent_bubble_sort(manager, seq, swap)
+    } else {
+        bubble_sort(manager, seq, swap)
+    }
+}
+
 /// Sorts the given sequence by swapping adjacent levels only. For every swap
 /// operation, `swap` is called with the smaller index.
 fn bubble_sort<M>(manager: &M, seq: &mut [u32], swap: SwapFn<'_, M>) {
